@@ -205,5 +205,62 @@ Proof.
   replace (sig_at toks (pos s) + (S (sig_at toks (pos s)) - sig_at toks (pos s))) with (S (sig_at toks (pos s))) in * by lia.
   exists (fst (snd (fst x))). rewrite Hinf. cbn.
   repeat split; try assumption; try lia.
+  eapply Skips_sub; [exact M4 | lia | lia].
 Qed.
+(* [head_at k a b]: the first significant token at or after a is a `k` token, and no proc/type/Eof
+   token lies strictly between it and b *)
+Definition head_at (k : kind) (a b : nat) : Prop :=
+  exists t, nth_error toks (sig_at toks a) = Some t /\ tk t = k /\ sig_at toks a < b /\
+            Skips toks sync_full (S (sig_at toks a)) b.
+
+(* what the token span [a, b) of a global declaration looks like *)
+Definition decl_span (g : gdecl) (a b : nat) : Prop :=
+  match g with
+  | GType _ => head_at KType a b
+  | GProc _ => head_at KProc a b
+  | GError _ => a < b /\ Skips toks sync_full a b /\ la_global toks b = true
+  end.
+
+Lemma is_k_eq k x : is_k k x = true -> x = k.
+Proof. unfold is_k. apply kind_eqb_eq. Qed.
+
+Lemma gdecl_shape f s s' g :
+  pos s <= N -> p_gdecl toks f s = POk s' g ->
+  pos s < pos s' /\ pos s' <= N /\ refp s' = refp s /\ ebuf s' = ebuf s /\
+  i_s (gdecl_info g) = pos s - refp s /\ i_e (gdecl_info g) = pos s' - refp s /\
+  decl_span g (pos s) (pos s').
+Proof.
+  intros Hs H. pose proof (Prog_gdecl f _ _ _ Hs H) as Hlt. unfold p_gdecl in H.
+  apply p_alt_ok in H as [H|[_ H]]; [|apply p_alt_ok in H as [H|[_ H]]].
+  - apply p_map_ok in H as (d & H & ->). rewrite p_typedecl_eq in H. apply p_map_ok in H as (x & H & ->).
+    apply head_shape in H as (t & Ht & Hf & A1 & A2 & A3 & A4 & A5 & A6 & A7);
+      [| apply Fwd_typedecl_rest, sync_full_ok | exact Hs].
+    destruct x as [[doc [t0 [name [t1 [ty t2]]]]] inf]. cbn [gdecl_info td_info snd] in *.
+    repeat split; try assumption. exists t. apply is_k_eq in Hf. auto.
+  - apply p_map_ok in H as (d & H & ->). rewrite p_procdecl_eq in H. apply p_map_ok in H as (x & H & ->).
+    apply head_shape in H as (t & Ht & Hf & A1 & A2 & A3 & A4 & A5 & A6 & A7);
+      [| apply Fwd_procdecl_rest, sync_full_ok | exact Hs].
+    destruct x as [[doc [t0 [name [t1 [params [t2 [t3 [vars [stmts t4]]]]]]]]] inf].
+    cbn [gdecl_info pd_info snd] in *.
+    repeat split; try assumption. exists t. apply is_k_eq in Hf. auto.
+  - apply p_map_ok in H as ([ign inf] & H & ->).
+    pose proof (Fwd_ok _ _ _ _ _ _ (Fwd_gerror toks sync_full sync_full_ok) Hs H) as (M1 & M2 & M3 & M4).
+    apply p_info_ok in H as (s1 & H & -> & Hinf). cbn [fst snd] in *.
+    apply p_ignore1_ok in H as (B1 & B2 & B3 & B4 & B5 & B6).
+    cbn [pos set_ebuf refp ebuf gdecl_info info_append i_s i_e] in *. subst inf. cbn [i_s i_e].
+    repeat split; try assumption; try reflexivity.
+Qed.
+
+Lemma ref_gdecl_shape f s s' g off :
+  pos s <= N -> p_ref (p_gdecl toks f) s = POk s' (g, off) ->
+  off = pos s - refp s /\ pos s < pos s' /\ pos s' <= N /\ refp s' = refp s /\ ebuf s' = ebuf s /\
+  i_s (gdecl_info g) = 0 /\ i_e (gdecl_info g) = pos s' - pos s /\
+  decl_span g (pos s) (pos s').
+Proof.
+  intros Hs H. apply p_ref_ok in H as (s1 & H & -> & Hoff). cbn [fst snd] in *.
+  apply gdecl_shape in H as (A1 & A2 & A3 & A4 & A5 & A6 & A7); [|exact Hs].
+  cbn [pos set_refp refp ebuf] in *. rewrite Nat.sub_diag in A5.
+  repeat split; assumption.
+Qed.
+
 End Decl.
